@@ -21,6 +21,73 @@ def cases(tier, r):
                   'match_subclasses': r.random() < 0.7, 'btype': r.choice(list(BTYPES)),
                   'target': r.randrange(8),
                   'op': r.choice(['iter', 'set', 'set_multi', 'replace', 'replace_nocopy', 'replace_equal', 'tagiter'])}
+  for _ in range(60 if tier == 'quick' else 1000):
+    yield 'methods', {'methods_stage': True, 'seed': r.getrandbits(48)}
+
+
+class _Tok2:
+  """Callables that are METHODS: every attribute access makes a new, equal method object."""
+
+  def __init__(self, name='t'):
+    self.name = name
+
+  @classmethod
+  def from_vocab(cls, vocab=None, lower=False):
+    return ('from_vocab', cls.__name__, vocab, lower)
+
+  @classmethod
+  def from_file(cls, path=None, lower=False):
+    return ('from_file', cls.__name__, path, lower)
+
+  def encode(self, text=None, lower=False):
+    return ('encode', self.name, text, lower)
+
+  def __eq__(self, other):
+    return isinstance(other, _Tok2) and self.name == other.name
+
+  def __hash__(self):
+    return hash(self.name)
+
+
+class _SubTok2(_Tok2):
+  pass
+
+
+def run_methods(case):
+  r = random.Random(case['seed'])
+  inst = _Tok2('shared')
+  getters = {'from_vocab': lambda: _Tok2.from_vocab, 'from_file': lambda: _Tok2.from_file,
+             'sub_from_vocab': lambda: _SubTok2.from_vocab, 'encode': lambda: inst.encode,
+             'encode_equal_instance': lambda: _Tok2('shared').encode}
+  names = [r.choice(sorted(getters)) for _ in range(r.randint(2, 5))]
+  nodes = [r.choice([fdl.Config, fdl.Partial])(getters[n](), lower=bool(i % 2)) for i, n in enumerate(names)]
+  f = graphs.node_fn(1, 0)
+  root = fdl.Config(f, p=[nodes[0], nodes[-1]], q={'k': nodes[len(nodes) // 2]}, r=nodes[1:])
+  pick = r.choice(names)
+  target = getters[pick]()              # named again: equal to the stored callable, another object
+  want = [n for n in reachable_buildables(root) if n is not root and n.__fn_or_cls__ == target]
+  obs = {'methods_stage': True, 'target': pick, 'callables': names, 'problems': []}
+  try:
+    got = list(selectors.select(root, target, check_nonempty=False))
+    if sorted(map(id, got)) != sorted(map(id, want)):
+      obs['problems'].append(f'select yields {len(got)} nodes, {len(want)} reachable Buildables have that callable')
+    selectors.select(root, target, check_nonempty=False).set(lower='SET')
+    for n in reachable_buildables(root):
+      if n is root:
+        continue
+      is_set = n.__arguments__.get('lower') == 'SET'
+      if is_set != any(n is w for w in want):
+        obs['problems'].append('.set assigned on a non-matching node' if is_set else '.set skipped a matching node')
+        break
+    marker = fdl.Config(f, p='replacement')
+    selectors.select(root, target, check_nonempty=False).replace(marker, deepcopy=False)
+    left = [n for n in reachable_buildables(root) if n is not root and n is not marker and n.__fn_or_cls__ == target]
+    if left:
+      obs['problems'].append(f'.replace left {len(left)} matching node(s) in place')
+  except Exception as e:
+    obs['problems'].append(f'raised {type(e).__name__}: {e}'[:160])
+  obs['n_match'] = len(want)
+  return obs
 
 
 def make_root(case):
@@ -93,6 +160,8 @@ def edges(root):
 
 
 def execute(case):
+  if case.get('methods_stage'):
+    return run_methods(case), None
   root = make_root(case)
   target = pick_target(root, case)
   btype = BTYPES[case['btype']]
@@ -289,6 +358,11 @@ def compare(real, model):
 
 
 def oracle(case, real):
+  if real.get('methods_stage'):
+    if real['problems']:
+      return {'what': 'selection by a callable that is a method (named again at the call site): ' + real['problems'][0],
+              'problems': real['problems'], 'callables': real['callables'], 'target': real['target']}
+    return None
   if 'iter_raised' in real:
     return {'what': 'iterating the selection raised', 'raised': real['iter_raised']}
   if not real['iter_exact']:
@@ -317,6 +391,8 @@ def oracle(case, real):
 
 
 def nontrivial(case, real):
+  if real.get('methods_stage'):
+    return ('methods', case['seed']) if real.get('n_match') else None
   if real.get('n_match', 0) == 0 and real['op'] != 'tagiter':
     return None
   if real['op'] == 'tagiter' and not real.get('tagiter_n'):
